@@ -18,7 +18,7 @@ Dump == /\ E.ev = "c19"
                v2 == Note(E.outcome = "ok" => E.memCount = E.expMem /\ E.memOk, v1, "C19-memory-regions-of-an-earlier-dump")
                v3 == Note(E.outcome = "ok" => IF E.blamedListed THEN E.excCtxRva = E.blamedCtxRva /\ E.excCtxSize = CtxSize
                                               ELSE E.excCtxSize = 0, v2, "C19-crashing-context-of-an-earlier-dump")
-               v4 == Note(E.outcome = "ok" /\ E.skip /\ ~E.principalGiven => E.nStacks = 0, v3, "C19-principal-mapping-of-an-earlier-dump")
+               v4 == Note(E.outcome = "ok" /\ E.skip /\ ~E.principalResolves => E.nStacks = 0, v3, "C19-principal-mapping-of-an-earlier-dump")
            IN viol' = v4
         /\ drift' = drift /\ nchk' = nchk + 1 /\ nlater' = nlater + (IF E.dumpNo > 1 THEN 1 ELSE 0)
 Next == l <= Len(Rec) /\ Dump /\ l' = l + 1
